@@ -42,6 +42,7 @@ func hasOwnMethod(n *types.Named, name string) bool {
 }
 
 func runC15(c *Ctx, r *Run) {
+	r.Rule("CODEC-5", "marshal and unmarshal are inverse: a wire field written from one field of the object is restored into that field")
 	r.Rule("CODEC-2", "hand-written codecs agree: every wire-struct field is written on marshal and read on unmarshal; every field of the restored type is assigned")
 	r.Rule("CODEC-4", "reflectively encoded structs reachable from result types carry no unexported state")
 	r.Rule("ERR-1", "restore-path guard inventory: every recorded decode/validation rejection of the UnmarshalBinary implementations and validators is present and covers the success return")
@@ -168,6 +169,120 @@ func runC15(c *Ctx, r *Run) {
 					}
 				}
 			})
+			// CODEC-5: the two directions are inverse of each other. For a wire field filled from exactly one field
+			// G of the encoded object, the fields restored from that wire field must include G.
+			isWire := func(n *types.Named) bool { return n != nil && (wire[n] || unWire[n]) }
+			modStruct := func(t types.Type) *types.Named {
+				n := namedOf(derefType(t))
+				if n == nil || n.Obj().Pkg() == nil || !strings.HasPrefix(n.Obj().Pkg().Path(), modPath) || isWire(n) {
+					return nil
+				}
+				if _, ok := n.Underlying().(*types.Struct); !ok {
+					return nil
+				}
+				return n
+			}
+			innermost := func(v ssa.Value) []string {
+				lasts, outers := map[string]bool{}, map[string]bool{}
+				dependsOn(v, func(x ssa.Value) bool {
+					var base ssa.Value
+					var name string
+					switch y := x.(type) {
+					case *ssa.FieldAddr:
+						if modStruct(y.X.Type()) == nil {
+							return false
+						}
+						base, name = y.X, fieldName(y.X.Type(), y.Field)
+					case *ssa.Field:
+						if modStruct(y.X.Type()) == nil {
+							return false
+						}
+						base, name = y.X, fieldName(y.X.Type(), y.Field)
+					default:
+						return false
+					}
+					lasts[name] = true
+					for _, comp := range strings.FieldsFunc(path(base), func(r rune) bool { return r == '.' || r == '[' || r == ']' || r == '(' || r == ')' || r == ',' }) {
+						outers[comp] = true
+					}
+					return false
+				})
+				var out []string
+				for n := range lasts {
+					if !outers[n] {
+						out = append(out, n)
+					}
+				}
+				sort.Strings(out)
+				return out
+			}
+			marSrc := map[string][]string{}
+			marPos := map[string]string{}
+			withCallees(c, mar, 2, func(f *ssa.Function) {
+				allInstrs(f, func(in ssa.Instruction) {
+					if st, ok := in.(*ssa.Store); ok {
+						if fa, ok := st.Addr.(*ssa.FieldAddr); ok {
+							if n := namedOf(fa.X.Type()); n != nil && wire[n] {
+								k := n.Obj().Name() + "." + fieldName(fa.X.Type(), fa.Field)
+								marSrc[k] = innermost(st.Val)
+								marPos[k] = c.Pos(st.Pos())
+							}
+						}
+					}
+				})
+			})
+			unmDst := map[string]map[string]bool{}
+			withCallees(c, unm, 2, func(f *ssa.Function) {
+				allInstrs(f, func(in ssa.Instruction) {
+					st, ok := in.(*ssa.Store)
+					if !ok {
+						return
+					}
+					fa, ok := st.Addr.(*ssa.FieldAddr)
+					if !ok || modStruct(fa.X.Type()) == nil {
+						return
+					}
+					target := fieldName(fa.X.Type(), fa.Field)
+					dependsOn(st.Val, func(x ssa.Value) bool {
+						var n *types.Named
+						var fname string
+						switch y := x.(type) {
+						case *ssa.FieldAddr:
+							n, fname = namedOf(y.X.Type()), fieldName(y.X.Type(), y.Field)
+						case *ssa.Field:
+							n, fname = namedOf(y.X.Type()), fieldName(y.X.Type(), y.Field)
+						default:
+							return false
+						}
+						if isWire(n) {
+							k := n.Obj().Name() + "." + fname
+							if unmDst[k] == nil {
+								unmDst[k] = map[string]bool{}
+							}
+							unmDst[k][target] = true
+						}
+						return false
+					})
+				})
+			})
+			var wkeys []string
+			for k := range marSrc {
+				wkeys = append(wkeys, k)
+			}
+			sort.Strings(wkeys)
+			for _, k := range wkeys {
+				src, dst := marSrc[k], unmDst[k]
+				if len(src) != 1 || len(dst) == 0 {
+					continue // composite or indirect: covered by the presence rules only
+				}
+				var dl []string
+				for d := range dst {
+					dl = append(dl, d)
+				}
+				sort.Strings(dl)
+				r.Check("CODEC-5", key+"|"+k+" <-> "+src[0], marPos[k], dst[src[0]], "wire field "+k+" is written from field "+src[0]+" and restored into it",
+					fmt.Sprintf("MarshalBinary writes field %s into wire field %s, but UnmarshalBinary restores %s from it: the stored bytes carry the wrong value and a restored object differs from the one that was stored", src[0], k, strings.Join(dl, ", ")))
+			}
 			var wnames []*types.Named
 			for n := range wire {
 				wnames = append(wnames, n)
@@ -280,6 +395,7 @@ func runC15(c *Ctx, r *Run) {
 	})
 
 	r.Require("CODEC-2", 40)
+	r.Require("CODEC-5", 15)
 	r.Require("CODEC-4", 5)
 	r.Require("ERR-1", 25)
 	r.Require("OB-U2", 6)
